@@ -4,7 +4,8 @@ From QV.Proofs Require Import InvProofs.
 From QV.Corr Require Import C02.
 Open Scope Q_scope.
 
-Record cin := { c_kind : kind; c_init : terms; c_edits : list edit; c_calls : list call; c_name : option nat }.
+Record cin := { c_kind : kind; c_init : terms; c_edits : list edit; c_calls : list call; c_post : list edit;   (* edits after the constraints *)
+                c_name : option nat }.
 Record iout := { r_kind : kind; r_terms : terms; r_name : option nat; r_mp : list (label * nat); r_anc : nat;
                  r_cons : list (rel * terms) }.
 Inductive cout := OInfo (i : iout) | OErr (e : err).
@@ -26,7 +27,8 @@ Definition run_case (c : cin) : cout :=
   match bind (m_create (c_kind c) (c_init c)) (fun m =>
         bind (run_edits m (c_edits c)) (fun m1 =>
         bind (add_calls m1 (c_calls c)) (fun m2 =>
-        create_from_info (get_info (with_name m2 (c_name c)))))) with
+        bind (run_edits m2 (c_post c)) (fun m3 =>
+        create_from_info (get_info (with_name m3 (c_name c))))))) with
   | Ok r => OInfo {| r_kind := kd r; r_terms := tm r; r_name := nm r; r_mp := mp r; r_anc := anc r;
                      r_cons := group_cons (cons r) |}
   | Err e => OErr e
